@@ -58,6 +58,8 @@ class SimFS:
         self.fired = None
         self.log: list[str] = []
         self.open_handles: list = []
+        self.fds: dict[int, dict] = {}
+        self.next_fd = 1000
 
     # ------------------------------------------------------------------ fault points
     def _point(self, name: str, when: str) -> None:
@@ -83,6 +85,7 @@ class SimFS:
     def crash_cleanup(self) -> None:
         """What a process crash leaves behind: open handles and their buffers are gone."""
         self.open_handles.clear()
+        self.fds.clear()
 
     # ------------------------------------------------------------------ primitives
     def exists(self, path: str) -> bool:
@@ -101,19 +104,86 @@ class SimFS:
         self.dirs.add(path)
 
     def open(self, path, mode='r', encoding=None, **kw):
+        binary = 'b' in mode
+        if isinstance(path, int):
+            # open(fd, mode): wrap a descriptor obtained from os.open (no truncation happens here)
+            if path not in self.fds:
+                raise OSError(errno.EBADF, 'bad file descriptor')
+            ent = self.fds[path]
+            if any(c in mode for c in 'wax+'):
+                h = _Writer(self, ent['path'], ent['inode'], pos=ent['pos'], append=ent['append'], binary=binary, fd=path)
+                self.open_handles.append(h)
+                return h
+            data = bytes(self.inodes[ent['inode']])
+            return _Reader(data if binary else data.decode(encoding or 'utf-8'))
         path = str(path)
-        if 'w' in mode:
+        if any(c in mode for c in 'wax'):
             def create():
                 if posixpath.dirname(path) not in self.dirs:
                     raise FileNotFoundError(path)
-                self.files[path] = b''
-            self.do(f'open-w {posixpath.basename(path)}', create)
-            h = _Writer(self, path, self.names[path])
+                if 'x' in mode and path in self.names:
+                    raise FileExistsError(path)
+                if 'w' in mode or path not in self.names:
+                    self.files[path] = b''
+            self.do(f'open-{"w" if "w" in mode else ("a" if "a" in mode else "x")} {posixpath.basename(path)}', create)
+            h = _Writer(self, path, self.names[path], append='a' in mode, binary=binary)
             self.open_handles.append(h)
             return h
         if path not in self.files:
             raise FileNotFoundError(path)
-        return _Reader(self.files[path].decode(encoding or 'utf-8'))
+        if '+' in mode:
+            h = _Writer(self, path, self.names[path], binary=binary)
+            self.open_handles.append(h)
+            return h
+        data = self.files[path]
+        return _Reader(data if binary else data.decode(encoding or 'utf-8'))
+
+    # ------------------------------------------------------------------ descriptor-level calls (os.open and friends)
+    def os_open(self, path, flags, mode=0o777, **kw):
+        import os as _os
+        path = str(path)
+
+        def go():
+            if posixpath.dirname(path) not in self.dirs:
+                raise FileNotFoundError(path)
+            if path in self.names:
+                if flags & _os.O_CREAT and flags & _os.O_EXCL:
+                    raise FileExistsError(path)
+                if flags & _os.O_TRUNC and flags & (_os.O_WRONLY | _os.O_RDWR):
+                    self.inodes[self.names[path]] = bytearray()
+            else:
+                if not flags & _os.O_CREAT:
+                    raise FileNotFoundError(path)
+                self.files[path] = b''
+        self.do(f'os.open {posixpath.basename(path)}', go)
+        self.next_fd += 1
+        self.fds[self.next_fd] = {'path': path, 'inode': self.names[path], 'pos': 0, 'append': bool(flags & _os.O_APPEND)}
+        return self.next_fd
+
+    def os_write(self, fd, data) -> int:
+        ent = self.fds.get(fd)
+        if ent is None:
+            raise OSError(errno.EBADF, 'bad file descriptor')
+        data = bytes(data)
+
+        def w():
+            ino = self.inodes[ent['inode']]
+            pos = len(ino) if ent['append'] else ent['pos']
+            ino[pos:pos + len(data)] = data
+            ent['pos'] = pos + len(data)
+        self.do(f'os.write {posixpath.basename(ent["path"])}', w)
+        return len(data)
+
+    def os_close(self, fd) -> None:
+        if fd not in self.fds:
+            raise OSError(errno.EBADF, 'bad file descriptor')
+        ent = self.fds.pop(fd)
+        self.do(f'os.close {posixpath.basename(ent["path"])}', lambda: None)
+
+    def os_fsync(self, fd) -> None:
+        ent = self.fds.get(fd)
+        name = posixpath.basename(ent['path']) if ent else str(fd)
+        self.do(f'fsync {name}', lambda: None)  # the crash model already keeps every completed write
 
     def replace(self, src, dst) -> None:
         src, dst = str(src), str(dst)
@@ -148,11 +218,14 @@ class SimFS:
 
 
 class _Reader:
-    def __init__(self, text: str) -> None:
-        self.text = text
+    def __init__(self, data) -> None:
+        self.data = data
 
     def read(self, n=-1):
-        t, self.text = self.text, ''
+        if n is None or n < 0:
+            t, self.data = self.data, self.data[:0]
+        else:
+            t, self.data = self.data[:n], self.data[n:]
         return t
 
     def __enter__(self):
@@ -166,32 +239,49 @@ class _Reader:
 
 
 class _Writer:
-    def __init__(self, fs: SimFS, path: str, inode: int) -> None:
+    def __init__(self, fs: SimFS, path: str, inode: int, pos: int = 0, append: bool = False, binary: bool = False, fd=None) -> None:
         self.fs = fs
         self.path = path
         self.inode = inode
         self.buf = bytearray()
         self.closed = False
+        self.pos = pos
+        self.append = append
+        self.binary = binary
+        self.fd = fd
 
-    def write(self, s: str) -> int:
-        self.buf += s.encode('utf-8')
+    def _put(self, chunk: bytes) -> None:
+        ino = self.fs.inodes[self.inode]
+        pos = len(ino) if self.append else self.pos
+        ino[pos:pos + len(chunk)] = chunk  # in place: bytes beyond what is written stay (no implicit truncation)
+        self.pos = pos + len(chunk)
+
+    def write(self, s) -> int:
+        self.buf += bytes(s) if self.binary else s.encode('utf-8')
         while len(self.buf) >= self.fs.buffer_size:
             chunk = bytes(self.buf[:self.fs.buffer_size])
-
-            def w(chunk=chunk):
-                self.fs.inodes[self.inode] += chunk
-            self.fs.do(f'write {posixpath.basename(self.path)}', w)
+            self.fs.do(f'write {posixpath.basename(self.path)}', lambda chunk=chunk: self._put(chunk))
             del self.buf[:len(chunk)]
         return len(s)
 
     def flush(self) -> None:
         if self.buf:
             chunk = bytes(self.buf)
-
-            def w():
-                self.fs.inodes[self.inode] += chunk
-            self.fs.do(f'flush {posixpath.basename(self.path)}', w)
+            self.fs.do(f'flush {posixpath.basename(self.path)}', lambda: self._put(chunk))
             self.buf.clear()
+
+    def fileno(self) -> int:
+        if self.fd is None:
+            self.fs.next_fd += 1
+            self.fd = self.fs.next_fd
+            self.fs.fds[self.fd] = {'path': self.path, 'inode': self.inode, 'pos': self.pos, 'append': self.append}
+        return self.fd
+
+    def truncate(self, size=None) -> int:
+        self.flush()
+        size = self.pos if size is None else size
+        self.fs.do(f'truncate {posixpath.basename(self.path)}', lambda: self.fs.inodes[self.inode].__delitem__(slice(size, None)))
+        return size
 
     def close(self) -> None:
         if self.closed:
@@ -199,6 +289,8 @@ class _Writer:
         self.flush()
         self.fs.do(f'close {posixpath.basename(self.path)}', lambda: None)
         self.closed = True
+        if self.fd is not None:
+            self.fs.fds.pop(self.fd, None)
         if self in self.fs.open_handles:
             self.fs.open_handles.remove(self)
 
@@ -264,12 +356,42 @@ class SimPath:
         return hash(self.path)
 
 
+class Unmodelled(Exception):
+    """The code under test used a file-system call the simulated file system does not model: a harness limit, not a verdict."""
+
+
+_PASS_THROUGH = {'path', 'fspath', 'fsencode', 'fsdecode', 'getpid', 'sep', 'linesep', 'urandom', 'environ', 'getenv', 'PathLike', 'name', 'curdir', 'pardir', 'devnull',
+                 'getuid', 'getcwd', 'umask', 'error', 'strerror'}
+
+
 class _FakeOs:
     def __init__(self, fs: SimFS) -> None:
+        self._fs = fs
         self.replace = fs.replace
         self.rename = fs.rename
         self.remove = fs.unlink
         self.unlink = fs.unlink
+        self.open = fs.os_open
+        self.write = fs.os_write
+        self.close = fs.os_close
+        self.fsync = fs.os_fsync
+        self.fdatasync = fs.os_fsync
+        self.fdopen = lambda fd, mode='r', *a, **kw: fs.open(fd, mode, **kw)
+        self.makedirs = lambda p, mode=0o777, exist_ok=False: fs.do(f'mkdir {posixpath.basename(str(p))}', lambda: fs.mkdir(str(p), True, exist_ok))
+        self.mkdir = lambda p, mode=0o777: fs.do(f'mkdir {posixpath.basename(str(p))}', lambda: fs.mkdir(str(p), False, False))
+        self.chmod = lambda *a, **kw: None
+        self.fchmod = lambda *a, **kw: None
+
+    def __getattr__(self, name):
+        import os as _os
+        if name.startswith('O_') or name.startswith('SEEK_') or name in _PASS_THROUGH:
+            return getattr(_os, name)
+        if name.startswith('__'):
+            raise AttributeError(name)
+
+        def unmodelled(*a, **kw):
+            raise Unmodelled(f'os.{name} is not modelled by the simulated file system')
+        return unmodelled
 
 
 class _FakePathlib:
